@@ -321,9 +321,12 @@ func (s *AdminOp) updateValidators(validators *agtypes.ValidatorSet, changedVali
 				}
 			}
 		case agtypes.ValidatorCmdRemoveNode:
-			_, removed := validators.Remove(address)
-			if !removed {
-				return fmt.Errorf("Failed to remove validator %X", address)
+			// Requests are checked against the validator set at the start of the block, so
+			// one block can carry several accepted removals of the same validator: the first
+			// removes it, for the others nothing is left to do (as for a remove_node request
+			// that names a node which is no validator at all).
+			if _, removed := validators.Remove(address); !removed {
+				log.Warn(fmt.Sprintf("node(%X) is already removed from validators", address))
 			}
 		default:
 			log.Warn("unsupported admin operation:" + string(vAttr.Cmd))
